@@ -348,9 +348,18 @@ static int g_next_handle = 0;
 static std::vector<int> g_closes;
 static bool g_dl_wrong = false;
 
+static long g_self_opens = 0, g_self_closes = 0;
+static void* g_self_handle = nullptr;
+
 extern "C" void* __wrap_dlopen(const char* path, int flags)
 {
     void* h = __real_dlopen(path, flags);
+    if (path == nullptr && h != nullptr)
+    {
+        // dl(self): the handle of the program itself; every open has to be matched by a close
+        g_self_handle = h;
+        g_self_opens++;
+    }
     if (h != nullptr && path != nullptr && std::string(path).find("libnvtest_") != std::string::npos)
         g_open_ids[h].push_back(g_next_handle++);
     return h;
@@ -358,6 +367,8 @@ extern "C" void* __wrap_dlopen(const char* path, int flags)
 
 extern "C" int __wrap_dlclose(void* h)
 {
+    if (h != nullptr && h == g_self_handle)
+        g_self_closes++;
     auto it = g_open_ids.find(h);
     if (it != g_open_ids.end())
     {
@@ -416,6 +427,26 @@ static std::string run_dl(const std::string& ops)
                     {
                         std::string path = dir + "/libnvtest_" + std::to_string(g_next_handle) + ".so";
                         objs.push_back(std::make_unique<Obj>(std::in_place_type<nitro::dl::dl>, path));
+                    }
+                    else if (t[0] == "self")
+                    {
+                        // the program itself as a library: opened, copied, a missing symbol looked up, all destroyed
+                        long o0 = g_self_opens, c0 = g_self_closes;
+                        {
+                            nitro::dl::dl me(nitro::dl::self);
+                            nitro::dl::dl copy = me;
+                            try
+                            {
+                                auto s = copy.load<int(int, int)>("nv_no_such_symbol");
+                                res = "loaded-a-missing-symbol";
+                            }
+                            catch (nitro::dl::exception&)
+                            {
+                            }
+                        }
+                        if (g_self_opens - o0 != g_self_closes - c0 || g_self_opens == o0)
+                            res = "WRONG(self-handle: opened " + std::to_string(g_self_opens - o0) + ", closed " +
+                                  std::to_string(g_self_closes - c0) + ")";
                     }
                     else if (t[0] == "openbad")
                     {
